@@ -31,6 +31,12 @@ impl Var {
         Var::default()
     }
 
+    /// The letter that selects the DEFtype default of an undecorated name.
+    /// A function parameter is stored as "FNNAME.PARAM": its own letter counts.
+    fn type_letter(var_name: &str) -> Option<char> {
+        var_name.rsplit('.').next().and_then(|s| s.chars().next())
+    }
+
     pub fn clear(&mut self) {
         self.vars.clear();
         self.dims.clear();
@@ -97,7 +103,7 @@ impl Var {
                     Val::Integer(0)
                 } else {
                     use VarType::*;
-                    if let Some(idx) = var_name.chars().next() {
+                    if let Some(idx) = Var::type_letter(var_name) {
                         debug_assert!(idx.is_ascii_uppercase());
                         match self.types[idx as usize - 'A' as usize] {
                             Integer => Val::Integer(0),
@@ -198,7 +204,7 @@ impl Var {
             self.insert_integer(var_name, value)
         } else if var_name.ends_with('$') {
             self.insert_string(var_name, value)
-        } else if let Some(idx) = var_name.chars().next() {
+        } else if let Some(idx) = Var::type_letter(var_name) {
             debug_assert!(idx.is_ascii_uppercase());
             use VarType::*;
             match self.types[idx as usize - 'A' as usize] {
